@@ -1247,6 +1247,7 @@ static void obs_time_advance(int64_t from, int64_t to)
 			if (to > bound) {
 				viol("C04.oversleep", "thread %d stays blocked in the kernel until at least %" PRId64 " although timer obj %d expires at %" PRId64 " (wait entered at %" PRId64 ", clock staleness %" PRId64 ", wake time %" PRId64 ")",
 				     t, to, i, o->expiry, t0, s, simk_thread_wake_time(th->sim));
+				viol("C05.independence", "timer obj %d does not fire when its own expiry (%" PRId64 ") says it should: the loop stays blocked past it", i, o->expiry);
 				finish(1);
 			}
 		}
